@@ -104,7 +104,10 @@ def find_lexicons(
     cur = connect().cursor()
     found = False
     for specifier in lexicon.split():
-        limit = '-1' if '*' in lexicon else '1'
+        # a bare id selects one lexicon: the most recently added one
+        # with that id; anything else selects every match
+        bare_id = not any(c in specifier for c in ':*?[')
+        order_limit = 'ORDER BY rowid DESC LIMIT 1' if bare_id else ''
         if ':' not in specifier:
             specifier += ':*'
         query = f'''
@@ -113,7 +116,7 @@ def find_lexicons(
               FROM lexicons
              WHERE id || ":" || version GLOB :specifier
                AND (:language ISNULL OR language = :language)
-             LIMIT {limit}
+             {order_limit}
         '''
         params = {'specifier': specifier, 'language': lang}
         for row in cur.execute(query, params):
